@@ -41,6 +41,10 @@ Bind(k) == CASE k = 0 -> KindBind
              [] k = 11 -> <<[n |-> "a", v |-> NaN], [n |-> "b", v |-> F(0, 0)], [n |-> "c", v |-> F(-2, 0)], [n |-> "d", v |-> PInf]>>
              [] k = 12 -> <<[n |-> "a", v |-> F(1, 0)], [n |-> "b", v |-> F(0, 0)], [n |-> "c", v |-> F(-1, 0)], [n |-> "d", v |-> NZero]>>
              [] k = 13 -> <<[n |-> "a", v |-> F(0, 0)], [n |-> "b", v |-> F(3, 1)], [n |-> "c", v |-> PInf], [n |-> "d", v |-> F(0, 0)]>>
+             \* strings are compared byte for byte: texts that spell the same character differently (character references,
+             \* a reference to a reference) are different strings
+             [] k = 14 -> <<[n |-> "a", v |-> S("&amp;amp;")], [n |-> "b", v |-> S("&amp;")], [n |-> "c", v |-> S("&")], [n |-> "d", v |-> S("&#65;")]>>
+             [] k = 15 -> <<[n |-> "a", v |-> S("A")], [n |-> "b", v |-> S("&#65;")], [n |-> "c", v |-> S("&lt;")], [n |-> "d", v |-> S("<")]>>
              [] k = 8 -> <<[n |-> "a", v |-> A(<<I(10), I(20), I(30)>>)], [n |-> "b", v |-> I(2)],
                            [n |-> "c", v |-> O(<<[pk |-> "k", pv |-> I(5)], [pk |-> "Name", pv |-> O(<<[pk |-> "k", pv |-> I(7)]>>)]>>)],
                            [n |-> "d", v |-> I(1)]>>
@@ -209,6 +213,8 @@ Cases ==
                           \cup {[kind |-> "tree", e |-> Bin(o, x, y), b |-> 7, lay |-> "sp"] : o \in Ops, x \in Vars4, y \in Vars4}
                           \cup {[kind |-> "tree", e |-> Bin(c, Bin(ar, x, y), z), b |-> 7, lay |-> "sp"] :
                                    c \in {"==", "<"}, ar \in {"+", "-", "*", "/", "%"}, x \in Vars4, y \in Vars4, z \in Vars4}
+                          \cup {[kind |-> "tree", e |-> Bin(o, x, y), b |-> b, lay |-> "sp"] : o \in {"==", "!=", "+"}, x \in Vars4, y \in Vars4, b \in {14, 15}}
+                          \cup {[kind |-> "tree", e |-> Tern(Bin(o, x, StrL("A")), y, StrL("no")), b |-> 15, lay |-> "sp"] : o \in {"==", "!="}, x \in Vars4, y \in Vars4}
                           \cup {[kind |-> "fact", src |-> "{{ " \o f[1] \o " }}", out |-> f[2], b |-> 0, lay |-> "sp"] : f \in IeeeFacts}
                           \cup {[kind |-> "fact", src |-> "{{ x = " \o f[1] \o " }}{{ x ? \"1\" : \"0\" }}", out |-> f[2], b |-> 0, lay |-> "sp"] : f \in IeeeFacts}
     [] Family = "kindsinfix" -> {[kind |-> "tree", e |-> e, b |-> 0, lay |-> "sp"] : e \in KindsInfix}
